@@ -485,3 +485,44 @@ def mon_events(case):
         if reports > starts:
             out.append(f"step {i+1}: more init-report than init-start events")
     return out
+
+
+PLATFORM_TYPES = ("Runtime.ExitError", "Extension.Crash", "Extension.ExitError", "Extension.InitError", "Extension.LaunchError",
+                  "Sandbox.Failure", "Sandbox.Timeout", "Function.ResponseSizeTooLarge", "Runtime.InvalidResponseModeHeader")
+
+
+def mon_fault_body(case):
+    """C06: a fault that hits an environment which had completed initialisation (the invocation was
+    delivered to the runtime) is answered with what the runtime had posted for that invocation, or the
+    JSON error naming a platform fault — never an empty body and never an earlier generation's init error."""
+    out = []
+    idcaller, posted, cur = {}, {}, None
+    initerr_this_gen = set()
+    for i, (ws, obs, side) in enumerate(case["steps"]):
+        es = entries(obs)
+        idref = None
+        if ws[0] == "rt" and ws[1] in ("response", "error"):
+            idref = cur if ws[2] == "cur" else ws[2]
+        for e in es:
+            if e.startswith("sup exec:runtime-"):
+                initerr_this_gen = set()
+            if ws[0] == "rt" and ws[1] == "initerror" and e.startswith("rt.initerror=202"):
+                initerr_this_gen.add(ws[2])
+            m = re.match(r"rt\.next=200,(id#\d+),.*ctx=ctx(\d+)", e)
+            if m:
+                cur = m.group(1); idcaller[cur] = m.group(2)
+            if idref and re.match(r"rt\.(response|error)=(202|413|400,InvalidFunctionResponseMode)", e):
+                posted[idref] = True      # (an invalid response mode consumes the reply with an empty error body)
+            m = re.match(r"caller(\d+) done err=InvokeDoneFailed body=(\S+)", e)
+            if m:
+                c, body = m.groups()
+                ids = [k for k, v in idcaller.items() if v == c]
+                if not ids or any(k in posted for k in ids):
+                    continue            # not delivered (fault during init) or the runtime's own reply stands
+                if body == "empty":
+                    out.append(f"step {i+1}: caller {c}: fault after a completed initialisation answered with an empty body instead of a JSON error naming the fault")
+                elif body.startswith("errjson:"):
+                    t = body[8:]
+                    if t not in PLATFORM_TYPES and t not in initerr_this_gen:
+                        out.append(f"step {i+1}: caller {c}: fault answered with error type {t}, which is neither a platform fault type nor reported by the runtime in this generation")
+    return out
